@@ -70,4 +70,10 @@ CLAIMS["C05"] = proof(
     "lock_poll_live / lock_drop_live, stated over any word/event so they are reused for the RwLock's inner mutex) + the word invariant (MutexInv). C05_idle_event: no future alive => lock_ops has no entry. "
     "C05_no_error: no reachable poll takes an unreachable!() branch or exhausts loop fuel. Schedule half (threads, blocking waiters) not proved: poll-granular histories only; the blocking strategy is pinned by the ties. " + CORR, NOTE)
 
+CLAIMS["C10"] = proof(
+    "Mutex and Semaphore proved in full for histories: C10_mutex_no_trace — after any history (futures cancelled unpolled, pending, starved, notified-but-not-repolled or completed, in any order), in every reachable state with no guard alive "
+    "and nothing pending (completed futures may stay alive) the state word is 0, lock_ops has no entry and try_lock succeeds; C10_sem_no_trace — the event has no entry and count + forgotten = initial + added, so every permit is in the "
+    "counter for try_acquire. RwLock: only the two words are proved clean (C10_rw_words_partial: state = 0, inner mutex word = 0, all try_* succeed, via C14_free_lock_succeeds); that no_readers / no_writer / the inner lock_ops hold no entry, "
+    "and that a cancelled upgrade releases its upgradable lock at the event level, is decided by the correspondence check and the C05/C06/C07 monitors evaluated after each cancellation. Schedule half not proved. " + CORR, NOTE)
+
 NOT_APPLICABLE = []
